@@ -321,3 +321,74 @@ func zzC14(mode int) {
 func zzC14Structured() { zzC14(0) }
 func zzC14Raw()        { zzC14(1) }
 func zzC14Decision()   { zzC14(2) }
+
+// zzC14Repeat: ONE middleware instance serves a short history of requests (that is how it is deployed: built once,
+// called for every request, concurrently). The decision and the challenge of each request are a function of that
+// request alone — not of what the instance has answered before.
+func zzC14Repeat() {
+	url := ""
+	if vBool("haveURL") {
+		url = "https://rs.example/.well-known/oauth-protected-resource"
+	}
+	var required []string
+	if vBool("haveScopes") {
+		required = []string{"sa", "sb"}
+	}
+	opts := &RequireBearerTokenOptions{ResourceMetadataURL: url, Scopes: required}
+	good := &TokenInfo{UserID: "u", Scopes: []string{"sa", "sb"}, Expiration: vTimeSec(1<<33, 0)}
+	weak := &TokenInfo{UserID: "v", Scopes: []string{"sa"}, Expiration: vTimeSec(1<<33, 0)}
+	verifier := func(ctx context.Context, token string, req *http.Request) (*TokenInfo, error) {
+		switch token {
+		case "good":
+			return good, nil
+		case "weak":
+			return weak, nil
+		}
+		return nil, ErrInvalidToken
+	}
+	inner := &zzInner{}
+	h := RequireBearerToken(verifier, opts)(inner)
+	exp := "Bearer "
+	if url != "" {
+		exp += "resource_metadata=\"" + url + "\""
+	}
+	if len(required) > 0 {
+		if url != "" {
+			exp += ", "
+		}
+		exp += "scope=\"sa sb\""
+	}
+	admitted := 0
+	n := vParam("requests")
+	for i := 0; i < n; i++ {
+		kind := vChoice("request", 4) // no credential / unknown token / token lacking a scope / good token
+		req := &http.Request{Method: http.MethodPost, Header: http.Header{}}
+		switch kind {
+		case 1:
+			req.Header.Set("Authorization", "Bearer bad")
+		case 2:
+			req.Header.Set("Authorization", "Bearer weak")
+		case 3:
+			req.Header.Set("Authorization", "Bearer good")
+		}
+		w := &zzRW{hdr: http.Header{}}
+		h.ServeHTTP(w, req)
+		want := 401
+		if kind == 2 && len(required) > 0 {
+			want = 403
+		}
+		if kind == 3 || (kind == 2 && len(required) == 0) {
+			admitted++
+			vAssert(inner.ran == admitted && w.code == 0 && w.hdr.Get("WWW-Authenticate") == "", "C14.repeat.admitted-like-the-first-time")
+			continue
+		}
+		vAssert(inner.ran == admitted && w.code == want, "C14.repeat.rejected-like-the-first-time")
+		chs := w.hdr["Www-Authenticate"]
+		if url != "" || len(required) > 0 {
+			vAssert(len(chs) == 1 && chs[0] == exp, "C14.repeat.challenge-is-a-function-of-the-request-alone")
+		} else {
+			vAssert(len(chs) == 0, "C14.repeat.challenge-is-a-function-of-the-request-alone")
+		}
+	}
+	vReach("end")
+}
